@@ -898,6 +898,79 @@ def _sorted_to_sort(tree: ast.Module) -> None:
             setattr(holder, field, new)
 
 
+def _split_or_returns(tree: ast.Module) -> None:
+    """if A or B: <return/raise/continue/break X>   ->   if A: <..X>  \n  if B: <..X>      (no else; single terminal statement)"""
+    import copy
+
+    for holder, field, lst in list(_stmt_lists_of(tree)):
+        new = []
+        for st in lst:
+            if isinstance(st, ast.If) and not st.orelse and isinstance(st.test, ast.BoolOp) and isinstance(st.test.op, ast.Or) and len(st.body) == 1 \
+                    and isinstance(st.body[0], (ast.Return, ast.Raise, ast.Continue, ast.Break)):
+                for v in st.test.values:
+                    new.append(ast.If(test=v, body=[copy.deepcopy(st.body[0])], orelse=[], lineno=st.lineno))
+            else:
+                new.append(st)
+        setattr(holder, field, new)
+
+
+class _ReverseDeMorgan(ast.NodeTransformer):
+    """A or B -> not (not A and not B)   (for or-chains of comparisons)"""
+
+    def visit_BoolOp(self, node: ast.BoolOp):
+        self.generic_visit(node)
+        if isinstance(node.op, ast.Or) and all(isinstance(v, ast.Compare) for v in node.values):
+            return ast.UnaryOp(op=ast.Not(), operand=ast.BoolOp(op=ast.And(), values=[ast.UnaryOp(op=ast.Not(), operand=v) for v in node.values]))
+        return node
+
+
+def _hoist_literals(tree: ast.Module) -> None:
+    """`Perm((..))` literals, integers >= 2 and non-empty strings used inside functions become module-level constants `_LIT_k`"""
+    table: dict = {}
+    doc_ids = set()
+    for n in ast.walk(tree):
+        if isinstance(n, (ast.FunctionDef, ast.ClassDef, ast.Module)) and n.body and isinstance(n.body[0], ast.Expr) and isinstance(n.body[0].value, ast.Constant):
+            doc_ids.add(id(n.body[0].value))
+
+    class H(ast.NodeTransformer):
+        depth = 0
+
+        def visit_FunctionDef(self, node):
+            self.depth += 1
+            node.body = [self.visit(st) for st in node.body]  # defaults / decorators / annotations stay as they are
+            self.depth -= 1
+            return node
+
+        def visit_JoinedStr(self, node):
+            return node
+
+        def name_for(self, node) -> ast.Name:
+            key = ast.dump(node)
+            if key not in table:
+                table[key] = (f"_LIT_{len(table)}", node)
+            return ast.Name(id=table[key][0], ctx=ast.Load())
+
+        def visit_Call(self, node: ast.Call):
+            if self.depth and isinstance(node.func, ast.Name) and node.func.id == "Perm" and len(node.args) == 1 and isinstance(node.args[0], ast.Tuple) \
+                    and all(isinstance(e, ast.Constant) for e in node.args[0].elts) and not node.keywords:
+                return self.name_for(node)
+            self.generic_visit(node)
+            return node
+
+        def visit_Constant(self, node: ast.Constant):
+            if self.depth and id(node) not in doc_ids and ((type(node.value) is int and node.value >= 2) or (isinstance(node.value, str) and 0 < len(node.value) <= 12)):
+                return self.name_for(node)
+            return node
+
+    H().visit(tree)
+    pos = 0
+    while pos < len(tree.body) and (isinstance(tree.body[pos], (ast.Import, ast.ImportFrom)) or (isinstance(tree.body[pos], ast.Expr) and isinstance(tree.body[pos].value, ast.Constant))):
+        pos += 1
+    # after the imports and after the definitions the literals need (Perm is imported in every module that builds one)
+    for k, (name, node) in enumerate(table.values()):
+        tree.body.insert(pos + k, ast.Assign(targets=[ast.Name(id=name, ctx=ast.Store())], value=node, lineno=1))
+
+
 def _transformer(cls):
     def apply(tree: ast.Module) -> None:
         new = cls().visit(tree)
@@ -944,6 +1017,9 @@ def generic_equiv(files: List[str]) -> List[Variant]:
             ("loop-to-yield-from", _fix(_loop_to_yield_from), "for v in E: yield v -> yield from E"),
             ("any-to-loop", _fix(_any_to_loop), "return any(C for v in D) -> search loop with early return"),
             ("hoist-first-operand", _fix(_hoist_first_operand), "first operand of an and/or test bound to a local first"),
+            ("split-or-returns", _fix(_split_or_returns), "if A or B: return X -> if A: return X; if B: return X"),
+            ("hoist-literals", _fix(_hoist_literals), "Perm literals, magic integers and short strings named as module constants"),
+            ("reverse-de-morgan", _transformer(_ReverseDeMorgan), "A or B -> not (not A and not B)"),
             ("in-to-or", _transformer(_InToOr), "x in (a, b) -> x == a or x == b"),
             ("or-to-in", _transformer(_OrToIn), "x == a or x == b -> x in (a, b)"),
             ("unpack-by-index", _fix(_unpack_by_index), "a, b = t -> a = t[0]; b = t[1]"),
